@@ -1,10 +1,36 @@
 /* Monitor for C09 (metamorphic): the same fully opaque content presented as an alpha-less format,
  * as an alpha format with alpha 255, as r5g6b5 / x8r8g8b8 holding the replicated values, as a solid
  * fill or a 1x1 repeating image - in the role of source, mask or destination - must give the same picture. */
+#include "config.h"
+#include "pixman-private.h"       /* only for the types of the coverage hook H2 (which pipeline served a request) */
 #include "vf.h"
 #include "vf_req.h"
 #include "ref_pixel.h"
 #include "ref_ops.h"
+
+/* which precision served a request: 0 nothing was composited (operator reduced to a no-op), 1 8-bit routines only, 2 a floating-point iterator took part */
+extern void (*pixman_verif_trace_composite) (pixman_implementation_t *imp, pixman_composite_func_t func, const pixman_fast_path_t *key);
+extern void (*pixman_verif_trace_iter) (pixman_implementation_t *imp, const pixman_iter_info_t *info, iter_flags_t iter_flags);
+static int seen_lookup, seen_wide;
+static void trace_fp (pixman_implementation_t *imp, pixman_composite_func_t func, const pixman_fast_path_t *key) { (void)imp; (void)func; (void)key; seen_lookup = 1; }
+static void trace_it (pixman_implementation_t *imp, const pixman_iter_info_t *info, iter_flags_t fl) { (void)imp; (void)info; if (fl & ITER_WIDE) seen_wide = 1; }
+static int division_op (pixman_op_t op) { const char *n = ro_op_name (op); return op == PIXMAN_OP_SATURATE || !strncmp (n, "DISJOINT_", 9) || !strncmp (n, "CONJOINT_", 9); }
+/* does some homogeneous coordinate M.(x+1/2, y+1/2, 1) of the sampled rectangle (one pixel of margin) leave the 32-bit 16.16 range,
+ * i.e. can the projective fetcher not even represent the vector it has to divide?  (linear in x,y: the corners decide) */
+static int homogeneous_beyond_16_16 (const rq_image *im, int x0, int y0, int w, int h)
+{
+    for (int c = 0; c < 4; c++) {
+        double X = (c & 1 ? x0 + w + 1 : x0 - 1) + 0.5, Y = (c & 2 ? y0 + h + 1 : y0 - 1) + 0.5;
+        for (int i = 0; i < 3; i++) { double v = (im->tr.matrix[i][0] * X + im->tr.matrix[i][1] * Y + im->tr.matrix[i][2]) / 65536.0; if (v >= 32767.0 || v <= -32767.0) return 1; }
+    }
+    return 0;
+}
+static void no_negative_kernel (rq_image *im)
+{
+    if (im->filter != PIXMAN_FILTER_CONVOLUTION && im->filter != PIXMAN_FILTER_SEPARABLE_CONVOLUTION) return;
+    int first = im->filter == PIXMAN_FILTER_CONVOLUTION ? 2 : 4;
+    for (int i = first; i < im->n_params; i++) if (im->params[i] < 0) { im->filter = PIXMAN_FILTER_BILINEAR; im->n_params = 0; return; }
+}
 
 enum { P_X888, P_A888_FF, P_565, P_X888_FROM_565, P_SOLID, P_1X1_X888, P_1X1_A888_FF, NPRES };
 static const char *pname[] = { "x8r8g8b8", "a8r8g8b8(alpha=255)", "r5g6b5", "x8r8g8b8(replicated 565)", "solid", "1x1-repeat-x8r8g8b8", "1x1-repeat-a8r8g8b8(255)" };
@@ -65,10 +91,14 @@ static void c09_case (long idx, vf_rng *r)
     /* homogeneous scaling of the whole matrix leaves the mapping unchanged (x/w), but is not an affine matrix any more */
     if (role != 2 && target->tr_class >= TR_INT_TRANSLATE && target->tr_class <= TR_AFFINE && vf_chance (r, 1, 3)) {
         static const double ks[] = { 0.5, 0.25, 2.0, 0.75, 1.5 }; double k = VF_PICK (r, ks);
-        for (int i = 0; i < 3; i++) for (int j = 0; j < 3; j++) target->tr.matrix[i][j] = (pixman_fixed_t)(target->tr.matrix[i][j] * k);
-        target->tr_class = TR_PROJECTIVE;
+        int fits = 1; for (int i = 0; i < 3; i++) for (int j = 0; j < 3; j++) { double v = target->tr.matrix[i][j] * k; if (v > 2147483000.0 || v < -2147483000.0) fits = 0; }
+        if (fits) { for (int i = 0; i < 3; i++) for (int j = 0; j < 3; j++) target->tr.matrix[i][j] = (pixman_fixed_t)(target->tr.matrix[i][j] * k);
+                    target->tr_class = TR_PROJECTIVE; }
     }
     base.pixbuf = 0;
+    /* operators of the floating-point class are only defined on premultiplied samples: a kernel with negative lobes can deliver
+     * colour above alpha from premultiplied pixels, so the operands that are not under test get none */
+    if (ro_needs_float (op) || op == PIXMAN_OP_SATURATE) { if (role != 0) no_negative_kernel (&base.src); if (role != 1 && base.has_mask) no_negative_kernel (&base.mask); }
     uint64_t cseed = vf_next (r);
     /* which presentations take part */
     int pres[4], np = 0; int constant = 0, use565 = 0;
@@ -92,7 +122,7 @@ static void c09_case (long idx, vf_rng *r)
     }
     /* an a8r8g8b8 destination for the destination role keeps its alpha: only RGB is compared */
     static uint32_t out[4][96 * 48]; int outw = base.dst.w, outh = base.dst.h; if (outw > 96 || outh > 48) return;
-    char descs[4][1600]; uint32_t dmask[4];
+    char descs[4][1600]; uint32_t dmask[4]; int klass[4] = { 0, 0, 0, 0 };
     for (int v = 0; v < np; v++) {
         rq_request q = base;
         rq_image *t = role == 0 ? &q.src : role == 1 ? &q.mask : &q.dst;
@@ -106,7 +136,9 @@ static void c09_case (long idx, vf_rng *r)
         if (role != 2) rq_make_premultiplied (&q.dst);
         rq_describe (&q, descs[v], sizeof descs[v]);
         vf_inflight ("%s presented as %s: %s", role_name[role], pname[pres[v]], descs[v]);
+        seen_lookup = seen_wide = 0; pixman_verif_trace_composite = trace_fp; pixman_verif_trace_iter = trace_it;
         rq_run (&q);
+        pixman_verif_trace_composite = NULL; pixman_verif_trace_iter = NULL; klass[v] = !seen_lookup ? 0 : seen_wide ? 2 : 1;
         dmask[v] = rp_defined_mask (q.dst.fmt);
         if (q.dst.buf.bpp > 32) { rq_free (&q); return; }
         for (int y = 0; y < outh; y++) for (int x = 0; x < outw; x++) out[v][y * outw + x] = vf_get_px (vf_buf_row (&q.dst.buf, y), q.dst.buf.bpp, x);
@@ -121,6 +153,10 @@ static void c09_case (long idx, vf_rng *r)
     long npx = 0; int maxdev = 0;
     for (int v = 1; v < np; v++) {
         uint32_t m = dmask[0] & dmask[v]; if (role == 2) m = 0x00ffffff;
+        /* "bit-identically whenever both variants are evaluated at the same precision": operators that divide by an alpha amplify the
+         * difference between an 8-bit and a floating-point intermediate without bound, so a pair served at different precisions is not judged for them */
+        if (division_op (op) && klass[0] && klass[v] && klass[0] != klass[v]) { vf_count ("pairs_not_judged_division_operator_at_different_precision", 1); continue; }
+        vf_count (klass[0] == klass[v] ? "pairs_same_precision" : "pairs_different_precision", 1);
         for (int i = 0; i < outw * outh; i++) {
             npx++;
             uint32_t a = out[0][i] & m, b = out[v][i] & m;
@@ -130,6 +166,8 @@ static void c09_case (long idx, vf_rng *r)
             if (dev > maxdev) maxdev = dev;
             if (dev > tol) {
                 char key[160]; snprintf (key, sizeof key, "C09:%s:%s-vs-%s:%s", role_name[role], pname[pres[0]], pname[pres[v]], ro_op_name (op));
+                if (role != 2 && target->tr_class == TR_PROJECTIVE && homogeneous_beyond_16_16 (target, role == 0 ? base.sx : base.mx, role == 0 ? base.sy : base.my, base.w, base.h))
+                    snprintf (key, sizeof key, "C09:projective-homogeneous-coordinates-beyond-16.16:%s", role_name[role]);
                 vf_case_desc ("%s | vs | %s", descs[0], descs[v]);
                 vf_violation (key, "pixel (%d,%d): %08x when the %s is presented as %s, %08x as %s (compared bits %08x, tolerance %d)", i % outw, i / outw, a, role_name[role], pname[pres[0]], b, pname[pres[v]], m, tol);
                 v = np; break;
